@@ -700,3 +700,41 @@ theorem equalX_of_kind_ne (a b : E C) (h : a.kind ≠ b.kind) : equalX N a b = .
   cases a <;> cases b <;> simp only [equalX] <;> simp_all [E.kind]
 
 end MpVerif.C18
+
+namespace MpVerif.C18
+variable {C : Type} (N : NumOps C)
+
+/-- `x == y` implies `x == x` (partial equivalence) -/
+theorem NumOps.refl_of {x y : C} (h : N.feq x y = true) : N.feq x x = true :=
+  N.trans x y x h (by rw [N.symm]; exact h)
+
+theorem plSim_noNaN : ∀ (ps qs : List (C × C)), PLSim N ps qs →
+    ps.all (fun p => N.feq p.1 p.1 && N.feq p.2 p.2) = true
+  | _, _, .nil => rfl
+  | _, _, .cons h1 h2 hs => by
+    simp only [List.all_cons, Bool.and_eq_true]
+    exact ⟨⟨N.refl_of h1, N.refl_of h2⟩, plSim_noNaN _ _ hs⟩
+
+mutual
+/-- structurally identical to something ⇒ no NaN constant -/
+theorem sim_noNaN : ∀ (a b : E C), Sim N a b → noNaN N a = true
+  | _, _, .num h => by simp only [noNaN]; exact N.refl_of h
+  | _, _, .ref => rfl
+  | _, _, .un h => by simp only [noNaN]; exact sim_noNaN _ _ h
+  | _, _, .bin h1 h2 => by simp only [noNaN, Bool.and_eq_true]; exact ⟨sim_noNaN _ _ h1, sim_noNaN _ _ h2⟩
+  | _, _, .ite h1 h2 h3 => by
+    simp only [noNaN, Bool.and_eq_true]; exact ⟨sim_noNaN _ _ h1, sim_noNaN _ _ h2, sim_noNaN _ _ h3⟩
+  | _, _, .pl hp hl ha => by
+    simp only [noNaN, Bool.and_eq_true]
+    exact ⟨plSim_noNaN N _ _ hp, N.refl_of hl, sim_noNaN _ _ ha⟩
+  | _, _, .call h => by simp only [noNaN]; exact simList_noNaN _ _ h
+  | _, _, .iter h => by simp only [noNaN]; exact simList_noNaN _ _ h
+  | _, _, .bool => rfl
+  | _, _, .str _ => rfl
+theorem simList_noNaN : ∀ (as bs : List (E C)), SimList N as bs → noNaNList N as = true
+  | _, _, .nil => rfl
+  | _, _, .cons h hs => by
+    simp only [noNaNList, Bool.and_eq_true]; exact ⟨sim_noNaN _ _ h, simList_noNaN _ _ hs⟩
+end
+
+end MpVerif.C18
